@@ -181,6 +181,24 @@ pub fn digest_of_run(prop: &Prop, opt: &Options, run: u64) -> i32 {
     }
 }
 
+/// `frostsim digest <ID> <replay file>`: execute the file's scenario alone and print its digest.
+pub fn digest_of_file(prop: &Prop, path: &str) -> i32 {
+    let Some(scen) = std::fs::read_to_string(path).ok().and_then(|b| serde_json::from_str::<Scenario>(&b).ok()) else {
+        println!("outcome=harness:cannot read {path}");
+        return 2;
+    };
+    match run_exec(prop, &scen) {
+        Exec::Ok(r) | Exec::Violation(_, r) => {
+            println!("digest={} evaluations={} outcome=done", r.digest, r.evaluations);
+            0
+        }
+        Exec::Harness(e) => {
+            println!("outcome=harness:{e}");
+            2
+        }
+    }
+}
+
 /// Delta-debug the scenario while the same oracle of the same property keeps firing.
 pub fn minimise(prop: &Prop, scen: &Scenario, viol: &Violation, digest0: u64) -> (Scenario, Violation, u64) {
     let mut cur = scen.clone();
@@ -709,6 +727,37 @@ pub fn replay(prop: &Prop, path: &str, verif_dir: &str) -> i32 {
         }
     };
     println!("replay property={} suite={} seed={} run={} expected_oracle={}", scen.property, scen.suite, scen.seed, scen.run, scen.oracle);
+    if scen.oracle.ends_with("fresh_process_replay_differs") {
+        // the violation is a DIFFERENCE between the run inside a process that has already worked for other ciphersuites and the
+        // run alone: reproduce both sides - a dozen warm-up runs (every suite appears) and then the scenario in this process, the
+        // scenario alone in a child process
+        for r in 0..12u64 {
+            if r != scen.run {
+                let _ = run_exec(prop, &(prop.generate)(scen.seed, r, Tier::Quick));
+            }
+        }
+        let inside = match run_exec(prop, &scen) {
+            Exec::Ok(r) | Exec::Violation(_, r) => (r.digest, r.evaluations),
+            Exec::Harness(e) => {
+                println!("HARNESS-ERROR: {e}");
+                return 2;
+            }
+        };
+        let alone = std::env::current_exe().ok().and_then(|exe| std::process::Command::new(exe).args(["digest", prop.id, path, "--verif-dir", verif_dir]).env("FROSTSIM_NO_FRESH_REPLAY", "1").output().ok()).map(|o| String::from_utf8_lossy(&o.stdout).to_string()).unwrap_or_default();
+        let get = |k: &str| alone.split_whitespace().find_map(|w| w.strip_prefix(k)).and_then(|v| v.parse::<u64>().ok());
+        let (Some(d), Some(ev)) = (get("digest="), get("evaluations=")) else {
+            println!("HARNESS-ERROR: the child process gave no result ({})", alone.chars().take(200).collect::<String>());
+            return 2;
+        };
+        if (d, ev) != inside {
+            println!("VIOLATION property={} replay={}", scen.property, path);
+            println!("  oracle={} detail=after warm-up runs of other ciphersuites this process gives digest {:016x} / {} evaluations, a fresh process {d:016x} / {ev}", scen.oracle, inside.0, inside.1);
+            println!("  same_oracle=true");
+            return 1;
+        }
+        println!("replay: no violation (inside {:016x}, alone {d:016x})", inside.0);
+        return 0;
+    }
     match run_exec(prop, &scen) {
         Exec::Harness(e) => {
             println!("HARNESS-ERROR: {e}");
